@@ -151,7 +151,11 @@ func propC20(c c20Case) *Outcome {
 	defer car.Close()
 	ctx, cancel := context.WithCancel(context.Background())
 	defer cancel()
-	cs, err := car.Conn.NewStream(ctx, streamDescOf(c.Kind), methodOf(c.Kind))
+	sdesc := streamDescOf(c.Kind)
+	if c.Kind == kServerStream && c.Dir == "c2s" {
+		sdesc = &grpc.StreamDesc{StreamName: "ServerStream", ClientStreams: true, ServerStreams: true}
+	}
+	cs, err := car.Conn.NewStream(ctx, sdesc, methodOf(c.Kind))
 	if err != nil {
 		return o.failf("NewStream: %v", err)
 	}
@@ -179,7 +183,9 @@ func propC20(c c20Case) *Outcome {
 		}
 		if firstConsume && c.UseHdr {
 			firstConsume = false
-			takers++
+			if !c.Header {
+				takers++ // no header frame is coming: Header() may take (and park) a data frame
+			}
 			if s := guardFor(stallBound, "Header()", func() { cs.Header() }); s != "" {
 				obs.Fault = s
 			}
@@ -281,7 +287,9 @@ func genC20(t *rapid.T) c20Case {
 	case kClientStream:
 		c.Dir = rapid.SampledFrom([]string{"c2s", "c2s", "s2c"}).Draw(t, "dir")
 	case kServerStream:
-		c.Dir = "s2c"
+		// c2s here = a client streaming requests to a method that takes a single one (raw
+		// stream descriptor, as generic proxies use): the handler reads one and stalls
+		c.Dir = rapid.SampledFrom([]string{"s2c", "s2c", "c2s"}).Draw(t, "dir")
 	default:
 		c.Dir = rapid.SampledFrom([]string{"c2s", "s2c"}).Draw(t, "dir")
 	}
